@@ -1129,6 +1129,17 @@ fn decode_iv_triple(t: &mut Tape) -> (IParts, IParts, IParts) {
     let a = dom::decode_interval(t, w, true);
     let b = if t.prob(150) { iv_near(t, &a) } else { dom::decode_interval(t, w, true) };
     let c = if t.prob(170) { iv_near(t, &b) } else { dom::decode_interval(t, w, true) };
+    // values wider than 8 bytes (vector registers): the bounds, hints and strides of an 8-byte triple, re-read as
+    // 16-byte values (sign-extended). The implementation treats such intervals specially in several places
+    // (no rounding of hints to the stride, no stride for casts).
+    if w == 8 && t.prob(60) {
+        let wide = |p: &IParts| {
+            let mut q = p.clone();
+            q.w = 16;
+            q
+        };
+        return (wide(&a), wide(&b), wide(&c));
+    }
     (a, b, c)
 }
 
@@ -1215,7 +1226,7 @@ pub fn run(eng: &mut Engine) {
     eng.rule = "cases = ordered pairs (a, b) of abstract values of one kind and byte size; for each pair m = a.merge(b) is compared with the harness' own concretization: members of a and b must be members of m, a.merge(a) must represent a's set, merging m again with a, b or itself (both argument orders) must not change m's set, merge_with must agree with merge. 1-byte BitvectorDomain pairs and the reduced 1-byte interval universe (with hint/delay variants) are enumerated completely; wider intervals, DataDomains, maps (three strategies) and memory regions come from boundary-biased random tapes. Non-trivial = a != b; distinct by construction in enumerations, by hash of the pair's Debug form in random sections.".into();
     eng.assumptions = vec![
         "concretizations (interval {start+k*stride<=end} signed; BitvectorDomain value/all; DataDomain tagged values Abs/Rel(id,offset)/TopVal; Taint Top={untainted}, Tainted={tainted,untainted}; absent map key = bottom (Union) / every value (Intersect) / V::top() (MergeTop); memory region = constraints on exactly the stored cells, a DataDomain cell containing Top values constrains nothing) are faithful readings of the type documentation".into(),
-        "preconditions respected: both sides have the same byte size (maps: all values of one pair; regions: cells of equal offset may differ in size, which the merge documents as 'not added'), regions have equal address size and are built by insert_at_byte_index (non-overlapping, no Top cells), widening hints only at constructor-reachable positions (lower hint <s start, upper hint >s end), interval widths <= 8 bytes".into(),
+        "preconditions respected: both sides have the same byte size (maps: all values of one pair; regions: cells of equal offset may differ in size, which the merge documents as 'not added'), regions have equal address size and are built by insert_at_byte_index (non-overlapping, no Top cells), widening hints only at constructor-reachable positions (lower hint <s start, upper hint >s end), interval widths <= 8 bytes plus 16-byte intervals whose bounds fit into 8 bytes".into(),
         "γ-equality ignores widening hints and the widening delay".into(),
     ];
 
